@@ -1,6 +1,6 @@
 """MSG — outbound message templates (DESIGN §5.5) and the template-based halves of VOTE / APPEND / PREVOTE."""
 from ..engine import obligation, require, require_all, fn_name, callers_of, call_args
-from ..an import show, strip_generics, strip_generics as sg
+from ..an import show, walk, strip_generics, strip_generics as sg
 from ..pat import ANY, V, match, call, fld, alt
 from ..pg import show_lit
 from ..idioms import as_min, is_param_of_adt, strip_casts
@@ -178,6 +178,15 @@ def append_anchor(cx):
             def cont(l):
                 return l[0] == "is" and l[2] is True and l[1][0] == "call" and l[1][1].endswith("is_continuous_ents")
             require(cx, s, cx.site_key(s, "batch:append"), "entries are batched onto a queued MsgAppend only if is_continuous_ents(msg, ents)", cont, kill=False)
+            def same_peer(l):
+                if l[0] != "is" or l[2] is not True or l[1][0] != "bin" or l[1][1] != "Eq":
+                    return False
+                xs = l[1][2:4]
+                return any(x[0] == "field" and x[2] == "Message.to" for x in xs) and any(x[0] == "param" for x in xs)
+            def is_append(l):
+                return l[0] == "in" and l[2] == frozenset(["MsgAppend"]) and any(x[0] == "field" and x[2] == "Message.msg_type" or x[0] == "call" and x[1].endswith("get_msg_type") for x in walk(l[1]))
+            require_all(cx, s, cx.site_key(s, "batch:target"), "entries are batched only onto a queued MsgAppend addressed to the same peer",
+                        [("msg.msg_type == MsgAppend", is_append), ("msg.to == to", same_peer)], kill=False)
         ws = [s for s in cx.prog.writes.get("Message.commit", []) if s.fn is tb]
         ok = any(is_committed(cx.prog.A(tb).expr_rvalue(s.data["stmt"]["rv"], s.at)) for s in ws if "stmt" in s.data)
         cx.check(ok, "batch:commit", "a batched MsgAppend has its commit refreshed to raft_log.committed")
